@@ -512,7 +512,7 @@ common::register! {
     t_fci_rpsi = fci_rpsi::<_, 256> => 2,
     t_nack_step = nack_step::<_, 1024> => 2,
     t_nack_public = nack_public::<_, 8> => 2,
-    t_compound_step = compound_step::<_, 256, false> => 2,
+    t_compound_step = compound_step::<_, 128, false> => 2,
     t_compound_step_sdes = compound_step::<_, 16, true> => 2,
     t_compound_public = compound_public::<_, 16> => 2,
     t_sdes_chunk = sdes_chunk::<_, 32> => 2,
